@@ -17,6 +17,7 @@ from qce_circuit.structure.registry_repetition import FixedRepetitionStrategy, R
 from qce_circuit.structure.intrf_acquisition_operation import IAcquisitionOperation  # noqa: E402
 
 SCALE = 4
+NONE_INT = -999999          # integer stand-in for None in optional integer fields (TLC compares like with like)
 RT = {'FOLLOWED_BY': 'FB', 'JOINED_START': 'JS', 'JOINED_END': 'JE'}
 GK = {GlobalRegistryKey.READOUT: 'RO', GlobalRegistryKey.MICROWAVE: 'MW', GlobalRegistryKey.FLUX: 'FL',
       GlobalRegistryKey.RESET: 'RST'}
@@ -166,8 +167,8 @@ class Recorder:
                   'time_shift', 'space_shift'):
             if hasattr(o, f):
                 v = getattr(o, f)
-                extra[f] = 'None' if v is None else v
-        d['extra'] = [[k, str(extra[k])] for k in sorted(extra)]
+                extra[f] = NONE_INT if v is None else int(v)
+        d['extra'] = [[k, extra[k]] for k in sorted(extra)]
         return d
 
     # pure structure walk (no hand-over, no time query): which objects are in the structure, and where
@@ -236,9 +237,31 @@ class Recorder:
                 'leaves': objs, 'comps': cs}
         if acq:
             snap.update(self.acq_filters(S, ops))
+        snap['stim'] = self.stim_flat(S)
         if cold:
             self.cold(S, ops, comps, snap)
         return snap
+
+    def stim_flat(self, S):
+        """to_stim of a handle on S, read by the independent reader, repeats expanded, fused targets split."""
+        from qce_circuit.language.declarative_circuit import DeclarativeCircuit
+        try:
+            from qce_circuit.addon_stim import to_stim
+            import stimread
+            h = DeclarativeCircuit()
+            h._structure = S
+            text = str(to_stim(h))
+            two = ('CZ', 'CX', 'CNOT', 'CY', 'SWAP', 'ISWAP')
+            none = ('TICK', 'DETECTOR', 'OBSERVABLE_INCLUDE', 'SHIFT_COORDS', 'QUBIT_COORDS')
+            flat = stimread.split_targets(stimread.flat(stimread.parse(text)), lambda n: 2 if n in two else (0 if n in none else 1))
+            out = []
+            for ins in flat:
+                ts = [['rec', t[1]] if isinstance(t, list) and t[0] == 'rec' else (['inv', t[1]] if isinstance(t, list) else ['q', t]) for t in ins['targets']]
+                args = [int(a) if float(a).is_integer() else ['float', repr(a)] for a in ins['args']]
+                out.append({'name': ins['name'], 'targets': ts, 'args': args})
+            return {'status': 'ok', 'flat': out}
+        except Exception as e:
+            return {'status': 'error:' + e.__class__.__name__ + ':' + str(e)[:120], 'flat': []}
 
     def acq_filters(self, S, ops):
         """get_acquisition_indices by qubit and by (qubit, tag) through a handle on the structure, and the order of
